@@ -229,6 +229,7 @@ func applyEdits(c editCase, t schema.Type) (tr *refcodec.Tree, deletedDeep, dele
 
 func checkMissing(rec *stats.Recorder, c editCase) (msg string, known string) {
 	t := typeByName(c.Type)
+	failedDecode(c.AfterFailure) // (earlier aborted decodes must not influence this one)
 	tr, deep, inCol := applyEdits(c, t)
 	if c.Reader == "json" && !refcodec.ValidForJSON(tr) {
 		return "", "" // bytes that are not valid UTF-8 cannot be written into a JSON document (see KF-C01-json-non-utf8)
@@ -370,6 +371,9 @@ func TestC06Missing(t *testing.T) {
 		c.Nulls = rapid.SliceOfN(rapid.IntRange(0, 1000), 0, 2).Draw(rt, "nulls")
 		c.Perm = rapid.SliceOfN(rapid.IntRange(0, 1000), 1, 16).Draw(rt, "perm")
 		c.Unknown = rapid.IntRange(0, 2).Draw(rt, "unknown")
+		if rapid.IntRange(0, 3).Draw(rt, "after_failed_decode") == 0 {
+			c.AfterFailure = 1
+		}
 		msg, known := checkMissing(rec, c)
 		if known != "" {
 			rec.Known(known, kf.What(known), c)
